@@ -1,5 +1,6 @@
 import FFVerif.Props.C17
 import FFVerif.Pins.pinJoinEqualSegments
+import FFVerif.Pins.pinHashArray
 #print axioms FFVerif.C17.parse_sorted
 #print axioms FFVerif.C17.parse_keeps_association
 #print axioms FFVerif.C17.parse_given_identifier
@@ -30,3 +31,4 @@ import FFVerif.Pins.pinJoinEqualSegments
 #print axioms FFVerif.C17.index_spec
 #print axioms FFVerif.C17.slice_concat_roundtrip
 #print axioms FFVerif.Pins.pinJoinEqualSegments
+#print axioms FFVerif.Pins.pinHashArray
